@@ -167,18 +167,19 @@ package nodenumaresource
 // release undoes addPodAllocation on the CPU ledger: every CPU of the recorded pod loses one reference (its entry is
 // deleted when the count reaches 0, and an absent entry stays absent), every other CPU is untouched.
 // The NUMA ledger keeps one record per NUMA node id and no record is shared between two ids. release takes the pod's
-// amounts away from the records of exactly the node ids named in the pod's allocation (clamped at zero) and leaves the
+// amounts away from the records of exactly the node ids named in the pod's allocation (clamped at zero; a resource the
+// record does not carry stays at 0) and leaves the
 // record of every other node id alone.
 //@ spec func recordsOK(n *NodeAllocation) bool = forall a int, b int :: {n.allocatedResources[a], n.allocatedResources[b]} a != b && n.allocatedResources[a] != nil ==> n.allocatedResources[a] != n.allocatedResources[b]
 //@ func (*NodeAllocation).release [C06]
 //@   let numa = n.allocatedPods[podUID].NUMANodeResources
 //@   ensures #numa_map: forall id int :: n.allocatedResources[id] == old(n.allocatedResources[id])
 //@   ensures #numa_other: old(recordsOK(n)) ==> forall id int :: {n.allocatedResources[id]} n.allocatedResources[id] != nil && (!old(has(n.allocatedPods, podUID)) || (forall j int :: 0 <= j && j < len(old(numa)) ==> old(numa[j].Node) != id)) ==> n.allocatedResources[id].Resources == old(n.allocatedResources[id].Resources)
-//@   ensures #numa_sub: old(recordsOK(n)) && old(has(n.allocatedPods, podUID)) && (forall j int, k int :: 0 <= j && j < k && k < len(old(numa)) ==> old(numa[j].Node) != old(numa[k].Node)) ==> (forall j int, r corev1.ResourceName :: 0 <= j && j < len(old(numa)) && n.allocatedResources[old(numa[j].Node)] != nil ==> val(n.allocatedResources[old(numa[j].Node)].Resources, r) == max0(old(val(n.allocatedResources[numa[j].Node].Resources, r)) - old(val(numa[j].Resources, r))))
+//@   ensures #numa_sub: old(recordsOK(n)) && old(has(n.allocatedPods, podUID)) && (forall j int, k int :: 0 <= j && j < k && k < len(old(numa)) ==> old(numa[j].Node) != old(numa[k].Node)) ==> (forall j int, r corev1.ResourceName :: 0 <= j && j < len(old(numa)) && n.allocatedResources[old(numa[j].Node)] != nil ==> val(n.allocatedResources[old(numa[j].Node)].Resources, r) == (old(has(n.allocatedResources[numa[j].Node].Resources, r)) ? max0(old(val(n.allocatedResources[numa[j].Node].Resources, r)) - old(val(numa[j].Resources, r))) : 0))
 //@   loop 3 invariant #idx3: 0 <= $i && $i <= len($range)
 //@   loop 3 invariant #map3: forall id int :: n.allocatedResources[id] == old(n.allocatedResources[id])
 //@   loop 3 invariant #other3: old(recordsOK(n)) ==> forall id int :: {n.allocatedResources[id]} n.allocatedResources[id] != nil && (forall j int :: 0 <= j && j < $i ==> $range[j].Node != id) ==> n.allocatedResources[id].Resources == old(n.allocatedResources[id].Resources)
-//@   loop 3 invariant #sub3: old(recordsOK(n)) && (forall j int, k int :: 0 <= j && j < k && k < len($range) ==> $range[j].Node != $range[k].Node) ==> (forall j int, r corev1.ResourceName :: 0 <= j && j < $i && n.allocatedResources[$range[j].Node] != nil ==> val(n.allocatedResources[$range[j].Node].Resources, r) == max0(old(val(n.allocatedResources[$range[j].Node].Resources, r)) - val($range[j].Resources, r)))
+//@   loop 3 invariant #sub3: old(recordsOK(n)) && (forall j int, k int :: 0 <= j && j < k && k < len($range) ==> $range[j].Node != $range[k].Node) ==> (forall j int, r corev1.ResourceName :: 0 <= j && j < $i && n.allocatedResources[$range[j].Node] != nil ==> val(n.allocatedResources[$range[j].Node].Resources, r) == (old(has(n.allocatedResources[$range[j].Node].Resources, r)) ? max0(old(val(n.allocatedResources[$range[j].Node].Resources, r)) - val($range[j].Resources, r)) : 0))
 //@   requires n != nil && n.allocatedPods != nil && n.allocatedCPUs != nil && n.allocatedResources != nil && n.sharedNode != nil && n.singleNUMANode != nil
 //@   requires refcOK(n)
 //@   let cpus = n.allocatedPods[podUID].CPUSet.elems
